@@ -456,6 +456,89 @@ def gen_via(ctx):
     yield make_via('assign', sizes, b, fb, 2, ['list', 'array'], 'sum', ['list'])
 
 
+def gen_fail(ctx):
+  """Failing calls under re-batching: `apply(fn, fn_batch_size=fb, batch_size=b)` whose function raises for some calls, run with
+  and without ignore_error.  Systematic part: for every stream / (fb, b) below, ONE failing call at EVERY call position (so the
+  output re-batcher's carry buffer is empty at some failures and non-empty at others), then pairs and all-fail; then random."""
+  rng, quick = ctx.rng, ctx.quick
+
+  def mk(sizes, fb, b, g, bad_calls, skip, nin=None, kinds=None, kinds_out=None):
+    nin = nin or 1 + (len(sizes) + fb + b) % 2
+    kinds = kinds or [KINDS5[(fb + b + i) % 5] for i in range(nin)]
+    kinds_out = kinds_out or [KINDS5[(fb + 2 * b + i) % 5] for i in range(n_out(g, nin))]
+    case = make_via('apply', sizes, b, fb, nin, kinds, g=g, kinds_out=kinds_out, bare=(fb + b) % 2 == 0)
+    groups = call_groups(case)
+    case['poison'] = sorted({groups[k][len(groups[k]) // 2][0] for k in bad_calls if k < len(groups) and groups[k]})
+    case['ignore_error'] = bool(skip)
+    return case
+
+  streams = [((3, 3, 3, 3), 2, 3), ((3, 3, 3, 3), 3, 3), ((5, 1, 4, 2), 2, 3), ((4, 4, 4, 4), 3, 4), ((2, 2, 2, 1), 2, 5),
+             ((3, 3, 3, 3, 3), 2, 4), ((2, 3, 1, 4), 0, 3), ((1, 2, 3, 4, 2), 0, 4), ((6, 6), 4, 1), ((2, 2, 2, 2), 1, 3),
+             ((3, 1, 2), 0, 0), ((2, 2, 2), 0, 0), ((7, 2), 3, 2)]
+  for si, (sizes, fb, b) in enumerate(streams):
+    ncalls = len(regroup(sizes, fb))
+    for gi, g in enumerate(['id', 'sum', 'twice', 'keep_even']):
+      if quick and (si + gi) % 2:
+        continue
+      for skip in (True, False):
+        for k in range(ncalls):
+          yield mk(sizes, fb, b, g, [k], skip)
+        yield mk(sizes, fb, b, g, [0, ncalls - 1], skip)
+        yield mk(sizes, fb, b, g, [1, 2], skip)
+        yield mk(sizes, fb, b, g, range(ncalls), skip)
+        yield mk(sizes, fb, b, g, [], skip)
+  for _ in range(250 if quick else 5000):
+    nb = rng.randrange(1, 7)
+    sizes = [rng.choice([1, 1, 2, 3, 4, 5]) for _ in range(nb)]
+    while sum(sizes) > 24:        # row ids (g*10+c) % 250 stay distinct
+      sizes.pop()
+    b = rng.choice([0, 1, 2, 3, 4, 5, 7])
+    fb = rng.choice([0, 1, 2, 3, 4, b]) if b else 0     # fn_batch_size needs batch_size
+    nin = rng.randrange(1, 4)
+    g = rng.choice(ROW_PRESERVING + ROW_CHANGING)
+    ncalls = len(regroup(sizes, fb))
+    bad = [k for k in range(ncalls) if rng.random() < rng.choice([0.15, 0.4])] or [rng.randrange(ncalls)]
+    yield mk(sizes, fb, b, g, bad, rng.random() < 0.7, nin, [rng.choice(KINDS5) for _ in range(nin)],
+             [rng.choice(KINDS5) for _ in range(n_out(g, nin))])
+
+
+def fail_arms(case):
+  """Failing-call cases: where the failures sit and what the output re-batcher holds when they happen (from the case alone)."""
+  groups = call_groups(case)
+  failing = [i for i, grp in enumerate(groups) if group_fails(case, grp)]
+  if not failing:
+    return {'fail:none'} if 'poison' in case else set()
+  g, b, n = ROW_FNS[case['g']], case['target'], len(groups)
+  mode = 'skip-on' if case.get('ignore_error') else 'skip-off'
+  out = {f'fail:{mode}', f'fail:{mode}:' + ('fb=0' if case['fn_batch'] == 0 else 'fb>0'), 'fail:several' if len(failing) > 1 else 'fail:single'}
+  if len(failing) == n:
+    out.add(f'fail:{mode}:all-calls')
+  if len(failing) == 1:
+    out.add(f'failpos:{n}:{failing[0]}:{mode}')
+  if b == 0:
+    out.add(f'fail:{mode}:b=0')
+    return out
+  carried = 0
+  for i, grp in enumerate(groups):
+    if i in failing:
+      where = 'first' if i == 0 else ('last' if i == n - 1 else 'middle')
+      later = any(j not in failing and sum(len(g(r)) for r in groups[j]) for j in range(i + 1, n))
+      out.add(f"fail:{mode}:carry-{'nonempty' if carried else 'empty'}:{where}")
+      if carried and later:
+        out.add(f'fail:{mode}:carry-nonempty:rows-after')
+    else:
+      carried = (carried + sum(len(g(r)) for r in grp)) % b
+  return out
+
+
+FAIL_POSITIONS = [(n, k) for n in (3, 4, 5, 6) for k in range(n)]
+REQUIRED_FAIL = ([f'fail:{m}:carry-{c}:{w}' for m in ('skip-on', 'skip-off') for c in ('nonempty', 'empty') for w in ('first', 'middle', 'last')
+                  if not (c == 'nonempty' and w == 'first')] +
+                 [f'fail:{m}:{x}' for m in ('skip-on', 'skip-off') for x in ('fb=0', 'fb>0', 'b=0', 'all-calls', 'carry-nonempty:rows-after')] +
+                 ['fail:several', 'fail:single', 'fail:none'] +
+                 [f'failpos:{n}:{k}:{m}' for n, k in FAIL_POSITIONS for m in ('skip-on', 'skip-off')])
+
+
 def flush_arms(sizes, t, padded):
   """Arms of the flush/carry logic exercised by a sequence of incoming batch sizes (computed from the sizes alone);
   also says whether some flush had to merge >= 2 buffered chunks (what `_concat` is for)."""
@@ -534,6 +617,7 @@ def branches(case):
     return {'empty-stream'}
   fb, g = case['fn_batch'], case['g']
   calls, outs = mid_sizes(case)
+  out |= fail_arms(case)
   nd_out = bool(set(kinds_out_of(case)) & set(ND_TAIL))
   if fb:
     st1 = flush_arms([len(bt[0]['r']) for bt in case['batches']], fb, False)
@@ -590,13 +674,14 @@ def gen_cases(ctx):
   yield from counted(gen_direct(ctx))
   yield from counted(gen_typed(ctx))
   yield from counted(gen_via(ctx))
+  yield from counted(gen_fail(ctx))
 
 
 def extra(ctx):
   """Coverage promise of the generator: every arm of the re-batching logic is exercised (else: infrastructure failure)."""
   from harness.core import InfraError
   missing = [b for b in REQUIRED_BRANCHES + REQUIRED_TYPED if b not in ctx.hist.get('branch:direct', {})]
-  missing += ['pipeline:' + b for b in REQUIRED_PIPELINE if b not in ctx.hist.get('branch:pipeline', {})]
+  missing += ['pipeline:' + b for b in REQUIRED_PIPELINE + REQUIRED_FAIL if b not in ctx.hist.get('branch:pipeline', {})]
   missing += ['entry:' + v for v in ('apply', 'select', 'batch', 'assign') if v not in ctx.hist.get('entry_point', {})]
   if missing:
     raise InfraError(f'generator missed promised branches: {missing}')
